@@ -286,6 +286,8 @@ def ref_term(ch, env, want, depth):
             if length >= 0 or depth <= 0 or ch.int(0, 2) > 0:
                 hi = (length - 1) if length >= 0 else 2
                 idx = ('lit', 'int', str(ch.int(0, max(hi, 0))))
+                if ch.int(0, 11) == 0:
+                    idx = ('lit', 'int', ch.pick(['0', '00']) + idx[2])  # the same position spelled with leading zeros
             else:
                 idx = typed_term(ch, env, 'N', min(depth - 1, 1))
             node = ('index', node, idx)
